@@ -659,8 +659,8 @@ class CSSStyleDeclaration(CSS2Properties, cssutils.util.Base2):
         if isinstance(name, Property):
             newp = name
             name = newp.literalname
-        elif not value:
-            # empty string or None effectively removed property
+        elif not value and not isinstance(value, (int, float)):
+            # empty string or None effectively removed property (0 is a value)
             return self.removeProperty(name)
         else:
             newp = Property(name, value, priority, parent=self)
